@@ -26,7 +26,7 @@ RULE = ("(A) generated definition/use programs (random DAGs over <=9 names with 
         "Model.LazyEval.lazy_run and final_run; the Gallina move_def is compared with the harness's on the same programs. "
         "(B) metamorphic on the real code: every/sampled placement move_def(p,i,j) and permute_defs of the movable top-level "
         "definitions of proggen programs (1-2 files, includes), of 'name = expr' lines of the 21 practice-corpus programs, and "
-        "label-difference programs (.blkb/.blkw/.repeat counts and '. =' skips whose operand is a symbol chain ending in a difference of labels defined later, definitions placed anywhere), chain x use-position programs (uses in .byte .word immediates index words absolute operands .blkb .blkw .repeat counts "
+        "two-file programs whose exporter has '.extern all' / '.extern names' / '::' / '==' and whose constants and labels are used from the other file, definitions crossing the .extern lines, exporter linked first and last; label-difference programs (.blkb/.blkw/.repeat counts and '. =' skips whose operand is a symbol chain ending in a difference of labels defined later, definitions placed anywhere), chain x use-position programs (uses in .byte .word immediates index words absolute operands .blkb .blkw .repeat counts "
         ".link '. =' .align trap/emt fields string codes); bytes, base, outcome class must be equal. "
         "non-trivial = a distinct (program, moved definition, target position) whose definition is referenced by the program")
 LEVEL_TEXT = ("Coq theorems on Model/LazyEval.v, for definition tables and expressions of any size: monotonicity of speculative "
@@ -533,7 +533,12 @@ CONTEXTS = [
     ("chain2", "y = {X} * 2\n.word y\nz = y / 2\n.byte z", 5),
 ]
 
-NL_FORMS = [lambda p: f"<{p} * 2> / 2 + 1", lambda p: f"<<{p} _ 1> / 2> + 1", lambda p: f"<{p} * 3 + 3> / 3", lambda p: f"<{p} _ 2 _ -2> + 1"]
+# every operator as the link between consecutive definitions, previous symbol as left and as right operand; each form = p + 1
+NL_TEXT = ["<{p} * 2> / 2 + 1", "<2 * {p}> / 2 + 1", "<6 / ({p} - {p} + 2) - 2> + {p}", "{p} + 1 + <{p} % 1>", "{p} + 1 + <7 % ({p} - {p} + 7)>",
+           "<({p} << 1) / 2> + 1", "{p} + <1 << ({p} - {p})>", "<({p} * 2) >> 1> + 1", "{p} + <2 >> ({p} - {p} + 1)>",
+           "<({p} _ 1) / 2> + 1", "{p} + <1 _ ({p} - {p})>", "<{p} & -1> + 1", "<-1 & {p}> + 1", "<{p} | 0> + 1", "<0 | {p}> + 1",
+           "<{p} ^ 0> + 1", "<0 ^ ({p})> + 1", "<{p} ! 0> + 1", "<0 ! {p}> + 1", "<~(~{p})> + 1", "<^C(^C{p})> + 1", "<-(-{p})> + 1"]
+NL_FORMS = [(lambda p, t=t: t.replace("{p}", p)) for t in NL_TEXT]
 
 
 def chain_text(depth, nonlinear, target, form=0):
@@ -569,6 +574,78 @@ def chain_groups(rng, tier):
                         text = "\n".join(place(dd, use, pos)) + "\n"
                         variants.append((f"{order}/{pos}", [("t.mac", text)], None))
                 groups.append({"key": f"chain:{cname}:{'nl' if nonlinear else 'add'}:{d}", "base": ([("t.mac", base)], None), "variants": variants})
+    return groups
+
+
+# B3a: one group per operator form: a chain whose every link is that form
+def operator_groups(rng, tier):
+    groups = []
+    for fi, t in enumerate(NL_TEXT):
+        for d in ((2, 4) if tier == "quick" else (2, 3, 7, 30)):
+            for use in ([".word {X}, {X} + 1"] if tier == "quick" else [".word {X}, {X} + 1", ".byte {X}\n.even", ".link 2000\n.blkb {X}\n.even\nb: .word b"]):
+                dl = ["x0 = 3"] + [f"x{i + 1} = {t.replace('{p}', f'x{i}')}" for i in range(d)]
+                u = use.replace("{X}", f"x{d}").split("\n")
+                base = "\n".join(dl + u) + "\n"
+                variants = []
+                for order in ("asc", "desc", "shuf"):
+                    for pos in ("before", "between", "after"):
+                        if (order, pos) == ("asc", "after"):
+                            continue
+                        dd = list(dl)
+                        if order == "desc":
+                            dd.reverse()
+                        elif order == "shuf":
+                            rng.shuffle(dd)
+                        variants.append((f"{order}/{pos}", [("t.mac", "\n".join(place(dd, u, pos)) + "\n")], None))
+                groups.append({"key": f"operator:{fi}:{t}:{d}:{use[:6]}", "base": ([("t.mac", base)], None), "variants": variants})
+    return groups
+
+
+# B3d: definitions crossing '.extern all' / '.extern names' in a file whose symbols are used from another file
+def extern_groups(rng, tier):
+    groups = []
+    defs_plain = ["bpm = 94.", "k2 = <bpm * 2> / 2 + 1", "span = lab2 - lab1"]
+    user = [".byte BPM, 0", ".word k2, lab1, lab2, span", "mov #bpm, r0", "ub: .blkb span", ".even", ".word ub"]
+    forms = {
+        # labels stand below '.extern all' (a label above it together with '::' would be exported twice)
+        "all": (["nop", ".extern all", "lab1: .word 1", "nop", "lab2: .word 2, bpm, k2"], defs_plain),
+        "all-late": (["nop", ".word 7", "nop", ".extern all", "lab1: .word 1", "lab2: .word 2, bpm, k2"], defs_plain),
+        "all-labels-above": (["nop", "lab1: .word 1", ".extern all", "nop", "lab2: .word 2, bpm, k2"], defs_plain),
+        "names": (["nop", "lab1: .word 1", ".extern bpm, K2", ".extern span, lab1, lab2", "nop", "lab2: .word 2, bpm, k2"], defs_plain),
+        "mixed": (["nop", "lab1:: .word 1", ".extern bpm", "nop", "lab2:: .word 2, bpm, k2"], ["bpm = 94.", "k2 == <bpm * 2> / 2 + 1", "span == lab2 - lab1"]),
+    }
+    per = 16 if tier == "quick" else 150
+    for fname, (skel, defs) in forms.items():
+        for exporter_first in (True, False):
+            nslots = len(skel) + 1
+
+            def build(assign):
+                out = []
+                for k in range(nslots):
+                    for sl, d in assign:
+                        if sl == k:
+                            out.append(d)
+                    if k < len(skel):
+                        out.append(skel[k])
+                e = ("e.mac", "\n".join(out) + "\n")
+                u = ("u.mac", "\n".join(user) + "\n")
+                return [e, u] if exporter_first else [u, e]
+            base = build([(nslots - 1, d) for d in defs])
+            variants, seen = [], set()
+            # every definition alone moved to the top, and all of them: the crossing in one step
+            fixed = [[(0 if d is m else nslots - 1, d) for d in defs] for m in defs] + [[(0, d) for d in defs]]
+            for _ in range(per):
+                order = list(defs)
+                rng.shuffle(order)
+                fixed.append([(rng.randrange(nslots), d) for d in order])
+            for assign in fixed:
+                files = build(assign)
+                key = files[0][1] + files[1][1]
+                if key in seen or files == base:
+                    continue
+                seen.add(key)
+                variants.append((" | ".join(f"{d}@{sl}" for sl, d in assign), files, None))
+            groups.append({"key": f"extern:{fname}:{'exporter-first' if exporter_first else 'exporter-last'}", "base": (base, None), "variants": variants})
     return groups
 
 
@@ -694,7 +771,13 @@ def metamorphic(rep, rng, tier, scale=1):
     g3c = labeldiff_groups(rng, tier)
     bad = run_pairs(rep, "labeldiff", g3c, watchdog=8)
     report_bad(rep, "labeldiff", bad)
-    g3 = g3 + g3b + g3c
+    g3d = operator_groups(rng, tier)
+    bad = run_pairs(rep, "operator", g3d, watchdog=8)
+    report_bad(rep, "operator", bad)
+    g3e = extern_groups(rng, tier)
+    bad = run_pairs(rep, "extern", g3e, watchdog=8)
+    report_bad(rep, "extern", bad)
+    g3 = g3 + g3b + g3c + g3d + g3e
     g4 = implicit_word_groups()
     bad = run_pairs(rep, "implicit-word", g4)
     report_bad(rep, "implicit-word", bad, known_sig=lambda g, d: "implicit-word-order")
